@@ -27,6 +27,7 @@ type Gen struct {
 	nonNilGlob map[*ssa.Global]int
 	loadErrs   []string
 	heapReg map[string]func(*Sess)
+	allocCache map[*ssa.Function]map[string]bool // struct sort ids a function may allocate ("*" = anything)
 	inlineForReplay bool // replay mode: in-repo callees are inlined instead of replaced by their contracts
 }
 
@@ -740,4 +741,82 @@ func (g *Gen) VerifyLemma(ax *Axiom) *Obligation {
 		o.Src += "; axiom errors: " + strings.Join(s.axiomErrs, "; ")
 	}
 	return o
+}
+
+// mayAlloc: the in-repo struct types (by mangled sort id) that fn can allocate
+// on the heap, following static in-repo calls.  Code outside the repository
+// cannot allocate the repository's struct types; a dynamic call or an
+// interface call may run arbitrary repository code ("*").
+func (g *Gen) mayAlloc(fn *ssa.Function) map[string]bool {
+	if g.allocCache == nil {
+		g.allocCache = map[*ssa.Function]map[string]bool{}
+	}
+	if r, ok := g.allocCache[fn]; ok {
+		return r
+	}
+	res := map[string]bool{}
+	g.allocCache[fn] = res // cycles: optimistic fixpoint start
+	var visit func(f *ssa.Function, depth int)
+	seen := map[*ssa.Function]bool{}
+	visit = func(f *ssa.Function, depth int) {
+		if seen[f] || res["*"] {
+			return
+		}
+		seen[f] = true
+		if !g.inRepo(f) {
+			return
+		}
+		if ct := g.contractFor(f); ct != nil && ct.Opts["noalloc"] != "" {
+			return
+		}
+		if f.Blocks == nil {
+			res["*"] = true
+			return
+		}
+		for _, b := range f.Blocks {
+			for _, ins := range b.Instrs {
+				switch x := ins.(type) {
+				case *ssa.Alloc:
+					et := x.Type().(*types.Pointer).Elem()
+					if _, ok := structOf(et); ok && x.Heap {
+						res["S_"+mangle(types.TypeString(types.Unalias(et), nil))] = true
+					}
+				case ssa.CallInstruction:
+					c := x.Common()
+					if c.IsInvoke() {
+						if ct := g.db.Contracts[objKey(c.Method)]; ct != nil && ct.Opts["noalloc"] != "" {
+							continue
+						}
+						res["*"] = true
+						return
+					}
+					switch cv := c.Value.(type) {
+					case *ssa.Function:
+						visit(cv, depth+1)
+					case *ssa.Builtin:
+					case *ssa.MakeClosure:
+						visit(cv.Fn.(*ssa.Function), depth+1)
+					default:
+						if u, ok := c.Value.(*ssa.UnOp); ok {
+							if gl, ok := u.X.(*ssa.Global); ok && !strings.HasPrefix(gl.Pkg.Pkg.Path(), modulePath) {
+								continue
+							}
+							if gl, ok := u.X.(*ssa.Global); ok {
+								if ct := g.db.Contracts[gl.Pkg.Pkg.Path()+"."+gl.Name()]; ct != nil && ct.Opts["noalloc"] != "" {
+									continue
+								}
+							}
+						}
+						res["*"] = true
+						return
+					}
+				}
+			}
+		}
+		for _, af := range f.AnonFuncs {
+			visit(af, depth+1)
+		}
+	}
+	visit(fn, 0)
+	return res
 }
